@@ -188,6 +188,28 @@ func discoverHarnesses(root string) ([]*Harness, error) {
 				if strings.HasPrefix(c.Text, "//vp:all ") {
 					fileDirs = append(fileDirs, c.Text)
 				}
+				if strings.HasPrefix(c.Text, "//vp:use ") {
+					// a shared harness part: its file-wide directives apply to this directory
+					for _, name := range strings.Fields(strings.TrimPrefix(c.Text, "//vp:use ")) {
+						seen := false
+						for _, u := range dirUses[rel] {
+							seen = seen || u == name
+						}
+						if seen {
+							continue
+						}
+						dirUses[rel] = append(dirUses[rel], name)
+						data, err := os.ReadFile(filepath.Join(root, "shared", name+".go.tmpl"))
+						if err != nil {
+							return err
+						}
+						for _, l := range strings.Split(string(data), "\n") {
+							if strings.HasPrefix(l, "//vp:all ") {
+								fileDirs = append(fileDirs, l)
+							}
+						}
+					}
+				}
 			}
 		}
 		dirDirectives[rel] = append(dirDirectives[rel], fileDirs...)
